@@ -24,7 +24,8 @@ def strategy(tier):
                   lazy_raise=False, bad=False, unset=False, convs=("value",), prio="default", catch_p=2,
                   shapes=("chain", "tree", "free", "free", "free", "comb"))
     return st.fixed_dictionaries({"prog": gen.programs(cfg), "entry": st.sampled_from(["function", "method", "proxy"]),
-                                  "plain_tail": st.sampled_from([None, "ok", "raise", "raise"])})
+                                  "plain_tail": st.sampled_from([None, "ok", "raise", "raise"]),
+                                  "bad_call": st.sampled_from([None, None, "extra-positional", "missing", "unknown-keyword"])})
 
 
 def make_world():
@@ -156,6 +157,15 @@ def make_world():
     return W
 
 
+# calls whose arguments do not fit the signature (an extra positional one / none at all / an unknown keyword)
+BAD_CALLS = {"extra-positional": lambda t: ((t, 1), {}), "missing": lambda t: ((), {}), "unknown-keyword": lambda t: ((t,), {"bogus": 1})}
+
+
+def W_bad_target(W, entry):
+    # the generator function itself or the method (a proxy forwards its arguments: the generator functions behind it are the same)
+    return W["obj"].run_m if entry == "method" else W["run_task"]
+
+
 def check(case, ctx):
     from asynq import is_asyncio_mode
     prog, entry = case["prog"], case["entry"]
@@ -202,6 +212,20 @@ def check(case, ctx):
                     flags["sync_after_tail"] = ["ok", Wb["quick"]()]
                 except RuntimeError as e:
                     flags["sync_after_tail"] = ["RuntimeError", str(e)[:60]]
+            # ... and a call whose arguments do not fit the signature: the failure happens before the body's first statement
+            bad = case.get("bad_call")
+            if bad:
+                bargs, bkw = BAD_CALLS[bad](prog["root"])
+                fnb = W_bad_target(Wb, entry)
+                try:
+                    flags["bad"] = ["ok", shape(await fnb.asyncio(*bargs, **bkw))]
+                except TypeError:
+                    flags["bad"] = ["TypeError"]
+                flags["after_bad"] = is_asyncio_mode()
+                try:
+                    flags["sync_after_bad"] = ["ok", Wb["quick"]()]
+                except RuntimeError as e:
+                    flags["sync_after_bad"] = ["RuntimeError", str(e)[:60]]
 
     try:
         b = asyncio.run(driver())
@@ -232,6 +256,18 @@ def check(case, ctx):
             viol.append(("C15.same_result", "%s: awaiting plain.asyncio() gives %r, plain() gives %r" % (desc, flags.get("tail"), exp_tail)))
         if flags.get("after_tail") is not False or flags.get("sync_after_tail") != ["ok", 1]:
             viol.append(("C15.mode_flag", "%s: after awaiting a plain @asynq function's .asyncio() that %s, is_asyncio_mode() is %r and a synchronous call of an @asynq() function gives %r" % (desc, "raised" if tail == "raise" else "returned", flags.get("after_tail"), flags.get("sync_after_tail"))))
+    bad = case.get("bad_call")
+    if bad:
+        bargs, bkw = BAD_CALLS[bad](prog["root"])
+        try:
+            exp_bad = ["ok", shape(W_bad_target(Wa, entry)(*bargs, **bkw))]
+        except TypeError:
+            exp_bad = ["TypeError"]
+        if flags.get("bad") != exp_bad:
+            viol.append(("C15.same_result", "%s: awaiting fn.asyncio() with %s argument gives %r, fn() gives %r" % (desc, bad, flags.get("bad"), exp_bad)))
+        if flags.get("after_bad") is not False or flags.get("sync_after_bad") != ["ok", 1]:
+            viol.append(("C15.mode_flag", "%s: after awaiting fn.asyncio() called with %s argument (%r), is_asyncio_mode() is %r and a synchronous call of an @asynq() function gives %r" % (
+                desc, bad, flags.get("bad"), flags.get("after_bad"), flags.get("sync_after_bad"))))
     if is_asyncio_mode():
         viol.append(("C15.mode_flag", "is_asyncio_mode() is on outside any event loop"))
     if Wb["mode_seen"] - {True}:
@@ -249,6 +285,7 @@ def check(case, ctx):
     ctx.label("proxy-used-with-several-arguments", st_["leaves"].get("pfn", 0) >= 2)
     ctx.label("async_call", st_["leaves"].get("acall", 0) > 0)
     ctx.label("plain-function-tail=" + str(tail))
+    ctx.label("call-with-arguments-that-do-not-fit=" + str(bad))
     ctx.nontrivial(case, st_["tasks"] >= 2 and (st_["nested"] or any(e[0] == "caught" for t in rb.trans.values() for e in t)))
     return viol
 
@@ -260,6 +297,8 @@ def reduce_case(case):
         yield dict(case, entry="function")
     if case.get("plain_tail"):
         yield dict(case, plain_tail=None)
+    if case.get("bad_call"):
+        yield dict(case, bad_call=None)
 
 
 def sizes(tier):
